@@ -91,7 +91,7 @@ def pw_rat(node, region, atom_of=norm_src):
             return a * b
         if isinstance(node.op, ast.Div):
             if b.is_zero():
-                raise Undecidable("division by zero on the region")
+                raise ZeroDivisionError(f"{norm_src(node.right)} is exactly 0 on the region and divides {norm_src(node.left)}")
             return a / b
     raise Undecidable(norm_src(node)[:40])
 
@@ -220,8 +220,9 @@ def run(pm, ctx):
                 except Undecidable as e:
                     ctx.unrecognised("C05-a", rsite, f"cannot evaluate `{norm_src(full)[:80]}` piecewise: {e}")
                     continue
-                except ZeroDivisionError:
-                    ctx.violation("C05-a", u.relpath, site, norm_src(rets[0])[:160], f"division by zero on the region {name}", line=rets[0].lineno, site=rsite)
+                except ZeroDivisionError as e:
+                    ctx.violation("C05-a", u.relpath, site, norm_src(rets[0])[:160], f"division by zero on the region {name}: {e}; a row that is already zero must stay zero "
+                                  f"(with alpha = 0 this is 0/0 = NaN)", line=rets[0].lineno, site=rsite)
                     continue
                 if got.equals(ref):
                     ctx.ok("C05-a", rsite, f"= {ref}")
